@@ -370,7 +370,7 @@ class Judge:
         self.life = {}      # id -> {"terminal": None|"sent"|"failed", "claimed": bool}
         self.fails = []
         self.prev_state = []
-        self.prev_q = 0
+        self.prev_queue = []
 
     def row(self, state, pid):
         for r in state:
@@ -485,6 +485,8 @@ class Judge:
             ok = any(o[0] == 2 and o[1] == pid for o in outs) or any(o[0] in (5, 6) and o[1] == pid for o in outs)
             if op["k"] == "tick" and rb[1] == 1 and len(rb) == 13 and rb[10] == self.idem:
                 ok = True
+                if any(q[0] in (1, 3, 4) and q[1] == pid for q in self.prev_queue):
+                    bad("payment id %d was freed for re-use by the idempotency timeout while an event of it was still unhandled" % pid)
             if not ok:
                 bad("payment id %d left the map without PaymentFailed and not by the idempotency timeout (row %s)" % (pid, rb))
         for r in state:
@@ -498,6 +500,7 @@ class Judge:
                     if rb[0] in ids_after or not any(o[0] == 2 and o[1] == rb[0] for o in outs):
                         bad("drained Retryable payment %d got no PaymentFailed from check_retry_payments without a route" % rb[0])
         self.prev_state = state
+        self.prev_queue = res.get("queue", [])
 
 
 def run_impl_sequence(ctx, ops_or_gen, nops, idem):
